@@ -271,9 +271,11 @@ pub fn run(ctx: &Ctx, id: &str) -> i32 {
                     r.note("fault_kinds_seen", &format!("{kind:?}"));
                     r.count("single_fault_runs", 1);
                     // second fault on the retry: every kind at a few positions of the retried attempt
-                    let second_positions: Vec<usize> = if quick { vec![*p + 1, *p + 3] } else { (*p + 1..*p + 8).collect() };
+                    let np = points[op].len();
+                    let second_positions: Vec<usize> = if quick { vec![*p + 1, *p + 3] } else { (*p + 1..=*p + np + 6).collect() };
+                    let kinds2: Vec<FaultKind> = if quick { vec![FaultKind::Close, FaultKind::Nack, FaultKind::WrongSerial, FaultKind::Silence] } else { vec![FaultKind::Close, FaultKind::Nack, FaultKind::WrongSerial, FaultKind::Silence, FaultKind::Garbage, FaultKind::Foreign] };
                     for p2 in second_positions {
-                        for kind2 in [FaultKind::Close, FaultKind::Nack, FaultKind::WrongSerial, FaultKind::Silence] {
+                        for kind2 in kinds2.clone() {
                             let (mut sc, idx) = skeleton(*op, &base_cfg);
                             sc.plan.faults.push(FaultSpec { call: idx, at: At::Tx(*p), kind });
                             // WrongSerial only makes sense at the system-info reply of the re-connection: use the point form
@@ -318,7 +320,7 @@ pub fn run(ctx: &Ctx, id: &str) -> i32 {
                 }
             }
             // random triples
-            let n_triples = if quick { 600 } else { 100_000 };
+            let n_triples = if quick { 3_000 } else { 1_000_000 };
             for _ in 0..n_triples / threads {
                 let op = *rng.pick(&OPS);
                 let np = points[&op].len();
